@@ -140,7 +140,7 @@ REG["C11"] = {
 }
 
 REG["C06"] = {
-    "units": ["markdown"],
+    "units": ["markdown", "mdparse"],
     "scope": "PARTIAL — the tokenizer: (1) extract_code_block_start(line) equals the spec `cbs`: exactly ``` or a run of >= 3 backticks followed by an info string, split at the first `{` "
              "into (backticks, language, config); all str slices are proved to be taken at char boundaries (Rust's panic condition is the helper's precondition); "
              "(2) MarkdownIterator::next: a call consumes a prefix of the remaining lines, counts them, ends only at the end of input, and the token it returns accounts for exactly the "
